@@ -161,6 +161,8 @@ int shrink_main(Plan P, const char *cls_c, int tier) {
     try_mod(P, cls, [](Plan &q) { if (!q.faults.latency) return false; q.faults.latency = 0; return true; });
     try_mod(P, cls, [](Plan &q) { if (q.pol.kind == POL_RUN_TO_BLOCK) return false; q.pol.kind = POL_RUN_TO_BLOCK; return true; });
     try_mod(P, cls, [](Plan &q) { if (q.buf_default == 0) return false; q.buf_default = 0; return true; });
+    try_mod(P, cls, [](Plan &q) { if (q.variant_flags == 0) return false; q.variant_flags = 0; return true; });
+    for (int guard = 0; guard < 8 && P.variant_flags > 1; ++guard) if (!try_mod(P, cls, [](Plan &q) { q.variant_flags = (q.variant_flags * 3) / 4; return true; })) break;
     try_mod(P, cls, [](Plan &q) { if (!q.use_twr || q.prop == "C06" || q.prop == "C07" || q.prop == "C08") return false; q.use_twr = 0; return true; });
     try_mod(P, cls, [](Plan &q) { if (q.producers < 2) return false; q.producers = 1; for (auto &o : q.ops) o.prod = 0; return true; });
     // 3. arguments
